@@ -24,6 +24,10 @@ def sh(cmd, cwd=None, env=None):
     return p.returncode, p.stdout + p.stderr
 
 
+rc, untracked = sh('git ls-files --others --exclude-standard', cwd=wt)
+newsrc = [f for f in untracked.split() if f.endswith('.go') and not f.endswith('_test.go')]
+if newsrc:
+    sh('git add -N ' + ' '.join(newsrc), cwd=wt)
 rc, patch = sh('git diff', cwd=wt)
 rc, untracked = sh('git ls-files --others --exclude-standard', cwd=wt)
 demos = [f for f in untracked.split() if f.endswith('_test.go')]
